@@ -240,6 +240,9 @@ func c13Virtual(c c13Case) (key, msg, outcome string) {
 	if w.T.DeadCtxSends > 0 {
 		return "C13/retry-on-used-up-attempt-context/" + c.Call, fmt.Sprintf("%s: %d transmissions attempted with a per-attempt context whose deadline had already passed", what, w.T.DeadCtxSends), ""
 	}
+	if clock.UnboundSleepsCrossing > 0 {
+		return "C13/backoff-sleep-not-bound-to-context/" + c.Call, fmt.Sprintf("%s: the deadline fell during a back-off sleep whose context is not derived from the caller's: the sleep (exponentially growing, up to a minute) runs to its end whatever the deadline", what), ""
+	}
 	if clock.SleepsAfterExpiry > 0 {
 		return "C13/backoff-sleep-after-expiry/" + c.Call, fmt.Sprintf("%s: %d back-off sleeps were started after the context had expired", what, clock.SleepsAfterExpiry), ""
 	}
